@@ -239,12 +239,6 @@ Proof.
   destruct (numeric_like (lower b :: map lower r)) eqn:E; [|reflexivity].
   apply numeric_like_first in E. rewrite lower_numeric_first in E. congruence.
 Qed.
-Lemma keyword_resolves c (r : list byte) : resolve_token (case_name (p_case c) (58 :: r)) = OSym (case_name (p_case c) (58 :: r)).
-Proof.
-  apply resolve_symbolic. rewrite map_lower_case. cbn [map]. change (lower 58) with 58.
-  destruct (numeric_like (58 :: map lower r)) eqn:E; [|reflexivity]. apply numeric_like_first in E. discriminate E.
-Qed.
-
 Lemma pipe_ok_closed b : pipe_ok_byte b = true /\ b < 128 -> (pipe_ok_byte (lower b) = true /\ lower b < 128) /\ (pipe_ok_byte (upper b) = true /\ upper b < 128).
 Proof.
   intros [H Hb]. unfold pipe_ok_byte in *. unfold lower, upper.
@@ -283,23 +277,6 @@ Proof.
   - rewrite Ew. discriminate.
 Qed.
 
-(* the two matches on the first byte, as tests *)
-Lemma symbol_text_cons c (b : byte) r : symbol_text c (b :: r) =
-  if b =? 58 then case_name (p_case c) (b :: r)
-  else if need_pipes (b :: r) then [124] ++ pesc (case_name (p_case c) (b :: r)) ++ [124] else case_name (p_case c) (b :: r).
-Proof.
-  destruct (N.eqb_spec b 58) as [->|Hb]; [reflexivity|]. unfold symbol_text.
-  destruct b as [|p]; [reflexivity|]. repeat (destruct p as [p|p|]; try reflexivity). contradiction.
-Qed.
-Lemma sym_ok_cons c (b : byte) r : sym_ok c (b :: r) =
-  forallb (fun b => b <? 128) (b :: r) &&
-  (if b =? 58 then negb (existsb need_pipe (b :: r)) && bare_ok (b :: r)
-   else if need_pipes (b :: r) then true else bare_ok (b :: r)).
-Proof.
-  destruct (N.eqb_spec b 58) as [->|Hb]; [reflexivity|]. unfold sym_ok. f_equal.
-  destruct b as [|p]; [reflexivity|]. repeat (destruct p as [p|p|]; try reflexivity). contradiction.
-Qed.
-
 (* the escaped spelling between bars reads back as the name, byte for byte *)
 Lemma pesc_byte_body b : b < 256 -> SymBody (pesc_byte b) [b].
 Proof.
@@ -330,24 +307,21 @@ Proof.
   - (* the empty name: || *)
     intros _. exists (TLeaf (LPipe [])), (OSym []). split; [exact (Reads_pipe [] (fun b (H : In b []) => match H with end))|].
     repeat split; try reflexivity; discriminate.
-  - rewrite sym_ok_cons, symbol_text_cons. intros H. apply andb_true_iff in H as [Hascii H].
+  - unfold sym_ok, symbol_text. intros H. apply andb_true_iff in H as [Hascii H].
     set (w := case_name (p_case c) (b :: r)).
-    assert (Hbare : bare_ok (b :: r) = true -> resolve_token w = OSym w -> RT (OSym (b :: r)) w).
-    { intros Hb Hres. destruct (bare_reads c (b :: r) Hb Hres) as (y & HR & Ho & He & Ht & Hd & Hne).
-      exists (TLeaf (LTok w)), y. repeat split; try assumption. discriminate. }
-    destruct (b =? 58) eqn:E58.
-    + (* keyword *) apply N.eqb_eq in E58. subst b. apply andb_true_iff in H as [_ Hb]. apply Hbare; [exact Hb|apply keyword_resolves].
-    + destruct (need_pipes (b :: r)) eqn:Enp.
-      * (* |name|, escaped *)
-        exists (TLeaf (LPipe w)), (OSym w).
-        split.
-        { apply Reads_pipe_body, pesc_body.
-          assert (HF : Forall (fun b => b < 128) w).
-          { apply case_name_forall; [apply below_128_closed|]. apply Forall_forall. intros y Hy.
-            rewrite forallb_forall in Hascii. specialize (Hascii y Hy). lia. }
-          rewrite Forall_forall in *. intros x Hx. specialize (HF x Hx). lia. }
-        repeat split; try reflexivity; try discriminate. cbn [obj_equal]. unfold w. rewrite map_lower_case. apply bytes_eqb_refl.
-      * apply Hbare; [exact H|apply need_pipes_false_resolves; exact Enp].
+    destruct (need_pipes (b :: r)) eqn:Enp.
+    + (* |name|, escaped *)
+      exists (TLeaf (LPipe w)), (OSym w).
+      split.
+      { apply Reads_pipe_body, pesc_body.
+        assert (HF : Forall (fun b => b < 128) w).
+        { apply case_name_forall; [apply below_128_closed|]. apply Forall_forall. intros y Hy.
+          rewrite forallb_forall in Hascii. specialize (Hascii y Hy). lia. }
+        rewrite Forall_forall in *. intros x Hx. specialize (HF x Hx). lia. }
+      repeat split; try reflexivity; try discriminate. cbn [obj_equal]. unfold w. rewrite map_lower_case. apply bytes_eqb_refl.
+    + pose proof (need_pipes_false_resolves c (b :: r) Enp) as Hres. fold w in Hres.
+      destruct (bare_reads c (b :: r) H Hres) as (y & HR & Ho & He & Ht & Hd & Hne).
+      exists (TLeaf (LTok w)), y. repeat split; try assumption. discriminate.
 Qed.
 
 (* ------------------------------------------------------------------------------------------ *)
